@@ -7,11 +7,11 @@
 #![allow(clippy::type_repetition_in_bounds)]
 
 use std::cmp::Ordering;
-use std::f64::consts::PI;
 use std::fmt::Write;
 use std::ops::Mul;
 
 use anyhow::Error;
+use itertools::iproduct;
 use log::debug;
 use serde::{Deserialize, Serialize};
 
@@ -125,11 +125,13 @@ where
     /// neighbouring cells ensures there are no intersections of when tiling space.
     ///
     fn check_intersection(&self) -> bool {
-        let periodic_range = match (self.cell.a() / self.cell.b(), self.cell.angle()) {
-            (p, a) if 0.5 < p && p < 2. && f64::abs(a - PI / 2.) < 0.2 => 1,
-            (p, a) if 0.3 < p && p < 3. && f64::abs(a - PI / 2.) < 0.5 => 2,
-            _ => 3,
-        };
+        // Two shapes can only intersect when their centres are closer than twice the enclosing
+        // radius. Neighbouring rows of cells along each cell vector are separated by the length
+        // of that vector times sin(angle), which gives the number of cells in each direction
+        // that can hold an intersecting image, whatever the shape of the cell.
+        let reach = 2. * self.shape.enclosing_radius() / self.cell.angle().sin();
+        let range_a = (reach / self.cell.a()).floor() as i64 + 1;
+        let range_b = (reach / self.cell.b()).floor() as i64 + 1;
         // Compare within the current cell
         for (index, shape1) in self
             .cartesian_positions()
@@ -152,7 +154,10 @@ where
         for transform1 in self.cartesian_positions() {
             let shape1 = self.shape.transform(&transform1);
             for position in self.relative_positions() {
-                for transform2 in self.cell.periodic_images(position, periodic_range, false) {
+                for transform2 in iproduct!(-range_a..=range_a, -range_b..=range_b)
+                    .filter(|&(x, y)| x != 0 || y != 0)
+                    .map(|(x, y)| self.cell.to_cartesian_translate(position, x, y))
+                {
                     let distance = (transform1.position() - transform2.position()).norm_squared();
                     if distance <= radius_sq {
                         let shape2 = self.shape.transform(&transform2);
